@@ -87,89 +87,108 @@ func culpritOfBlock(eb *ExecBlock, filter func(t *ExecTx) bool) string {
 // ---------------------------------------------------------------------------
 // C01 — pool reserves equal real holdings; DenomLiquidity equals sum of reserves
 
-type MonC01 struct {
-	donated map[string]sdkmath.Int // pool address|denom -> third-party sends
-}
-
-func (m *MonC01) Name() string { return "C01" }
-func (m *MonC01) AtEnd(s *Sim)  {}
-
-func (m *MonC01) AfterBlock(s *Sim, eb *ExecBlock) {
-	sn := s.Snap()
-	poolAddr := map[string]bool{}
-	for _, p := range sn.Pools {
-		poolAddr[p.Address] = true
-	}
-	// third-party plain sends to pool addresses (the only slack the statement allows)
-	for _, t := range eb.Txs {
-		if !t.OK() {
-			continue
-		}
-		for _, msg := range t.Spec.Msgs {
-			if ms, ok := msg.(*banktypes.MsgSend); ok && poolAddr[ms.ToAddress] {
+func newMonC01(s *Sim) *StepMon {
+	donated := map[string]sdkmath.Int{} // pool address|denom -> plain third-party sends
+	m := &StepMon{Prop: "C01", sim: s}
+	m.OnTxOK = func(s *Sim, t *ExecTx) {
+		// third-party plain sends to pool addresses: the only slack the statement allows
+		for _, msg := range flattenMsgs(t.Spec.Msgs) {
+			switch ms := msg.(type) {
+			case *banktypes.MsgSend:
 				for _, c := range ms.Amount {
 					k := ms.ToAddress + "|" + c.Denom
-					m.donated[k] = zeroIfNil(m.donated, k).Add(c.Amount)
+					donated[k] = zeroIfNil(donated, k).Add(c.Amount)
+				}
+			case *banktypes.MsgMultiSend:
+				for _, o := range ms.Outputs {
+					for _, c := range o.Coins {
+						k := o.Address + "|" + c.Denom
+						donated[k] = zeroIfNil(donated, k).Add(c.Amount)
+					}
 				}
 			}
 		}
 	}
-	sum := map[string]sdkmath.Int{}
-	for _, p := range sn.Pools {
-		for _, a := range p.PoolAssets {
-			d := a.Token.Denom
-			book := a.Token.Amount
-			bank := s.Ledger.Balance(p.Address, d)
-			don := zeroIfNil(m.donated, p.Address+"|"+d)
-			if book.GT(bank) {
-				s.Violate("C01", "book_gt_bank", culpritOfBlock(eb, nil), "pool %d %s: book reserve %s > bank balance %s (short by %s)", p.PoolId, d, book, bank, book.Sub(bank))
-			} else if bank.Sub(book).GT(don) {
-				s.Violate("C01", "bank_gt_book", culpritOfBlock(eb, nil), "pool %d %s: bank balance %s exceeds book reserve %s by %s, third-party sends explain only %s", p.PoolId, d, bank, book, bank.Sub(book), don)
+	m.Eval = func(s *Sim, ctx sdk.Context) []Issue {
+		var out []Issue
+		app := s.N0.App
+		sum := map[string]sdkmath.Int{}
+		for _, p := range app.AmmKeeper.GetAllPool(ctx) {
+			addr := sdk.MustAccAddressFromBech32(p.Address)
+			for _, a := range p.PoolAssets {
+				d := a.Token.Denom
+				book := a.Token.Amount
+				bank := app.BankKeeper.GetBalance(ctx, addr, d).Amount
+				don := zeroIfNil(donated, p.Address+"|"+d)
+				inst := fmt.Sprintf("pool %d %s", p.PoolId, d)
+				if book.GT(bank) {
+					out = append(out, issuef("book_gt_bank", inst, "book reserve %s > bank balance %s of the pool address (short by %s)", book, bank, book.Sub(bank)))
+				} else if bank.Sub(book).GT(don) {
+					out = append(out, issuef("bank_gt_book", inst, "bank balance %s exceeds book reserve %s by %s; plain third-party sends explain only %s", bank, book, bank.Sub(book), don))
+				}
+				sum[d] = zeroIfNil(sum, d).Add(book)
 			}
-			sum[d] = zeroIfNil(sum, d).Add(book)
 		}
-	}
-	dl := map[string]sdkmath.Int{}
-	for _, l := range s.N0.App.AmmKeeper.GetAllDenomLiquidity(s.Ctx()) {
-		dl[l.Denom] = l.Liquidity
-	}
-	denoms := map[string]bool{}
-	for d := range sum {
-		denoms[d] = true
-	}
-	for d := range dl {
-		denoms[d] = true
-	}
-	for d := range denoms {
-		if !zeroIfNil(sum, d).Equal(zeroIfNil(dl, d)) {
-			s.Violate("C01", "denom_liquidity", culpritOfBlock(eb, nil), "denom %s: chain-wide liquidity total %s != sum of pool reserves %s", d, zeroIfNil(dl, d), zeroIfNil(sum, d))
+		dl := map[string]sdkmath.Int{}
+		for _, l := range app.AmmKeeper.GetAllDenomLiquidity(ctx) {
+			dl[l.Denom] = l.Liquidity
 		}
+		denoms := map[string]bool{}
+		for d := range sum {
+			denoms[d] = true
+		}
+		for d := range dl {
+			denoms[d] = true
+		}
+		for d := range denoms {
+			if !zeroIfNil(sum, d).Equal(zeroIfNil(dl, d)) {
+				out = append(out, issuef("denom_liquidity", d, "chain-wide liquidity total %s != sum of pool reserves %s", zeroIfNil(dl, d), zeroIfNil(sum, d)))
+			}
+		}
+		return out
 	}
-	s.Stats.Inc("checks/C01", float64(len(sn.Pools)))
+	return m
 }
 
 // ---------------------------------------------------------------------------
 // C02 — TotalShares = share supply = Σ committed = custody balance
 
-type MonC02 struct{}
-
-func (m *MonC02) Name() string { return "C02" }
-func (m *MonC02) AtEnd(s *Sim)  {}
-
-func (m *MonC02) AfterBlock(s *Sim, eb *ExecBlock) {
-	sn := s.Snap()
-	custody := authtypes.NewModuleAddress(commitmenttypes.ModuleName).String()
-	for _, p := range sn.Pools {
-		d := ammtypes.GetPoolShareDenom(p.PoolId)
-		total := p.TotalShares.Amount
-		supply := s.Ledger.Supply(d)
-		committed := zeroIfNil(sn.CommittedSum, d)
-		held := s.Ledger.Balance(custody, d)
-		if !total.Equal(supply) || !supply.Equal(committed) || !committed.Equal(held) {
-			s.Violate("C02", "share_accounting", culpritOfBlock(eb, nil), "pool %d: TotalShares=%s supply=%s sum(committed)=%s custody balance=%s", p.PoolId, total, supply, committed, held)
+func newMonC02(s *Sim) *StepMon {
+	m := &StepMon{Prop: "C02", sim: s}
+	custody := authtypes.NewModuleAddress(commitmenttypes.ModuleName)
+	m.Eval = func(s *Sim, ctx sdk.Context) []Issue {
+		var out []Issue
+		app := s.N0.App
+		committed := map[string]sdkmath.Int{}
+		app.CommitmentKeeper.IterateCommitments(ctx, func(c commitmenttypes.Commitments) bool {
+			for _, ct := range c.CommittedTokens {
+				if strings.HasPrefix(ct.Denom, "amm/pool/") {
+					committed[ct.Denom] = zeroIfNil(committed, ct.Denom).Add(ct.Amount)
+				}
+			}
+			return false
+		})
+		for _, p := range app.AmmKeeper.GetAllPool(ctx) {
+			d := ammtypes.GetPoolShareDenom(p.PoolId)
+			total := p.TotalShares.Amount
+			supply := app.BankKeeper.GetSupply(ctx, d).Amount
+			com := zeroIfNil(committed, d)
+			held := app.BankKeeper.GetBalance(ctx, custody, d).Amount
+			if !total.Equal(supply) || !supply.Equal(com) || !com.Equal(held) {
+				out = append(out, issuef("share_accounting", fmt.Sprintf("pool %d", p.PoolId), "TotalShares=%s supply=%s sum(committed)=%s custody balance=%s", total, supply, com, held))
+			}
 		}
+		return out
 	}
-	// shares are minted only by create/join and burned only by exit (incl. leveraged-LP joins/exits)
+	return m
+}
+
+// MonC02Ledger: shares are minted only by create/join and burned only by exit.
+type MonC02Ledger struct{}
+
+func (m *MonC02Ledger) Name() string { return "C02" }
+func (m *MonC02Ledger) AtEnd(s *Sim)  {}
+func (m *MonC02Ledger) AfterBlock(s *Sim, eb *ExecBlock) {
 	for i := range s.Ledger.Moves {
 		mv := &s.Ledger.Moves[i]
 		if mv.Kind != "mint" && mv.Kind != "burn" {
@@ -183,7 +202,7 @@ func (m *MonC02) AfterBlock(s *Sim, eb *ExecBlock) {
 			if mv.Phase == "tx" {
 				ok = txHasShareOp(eb.Txs[mv.Tx], mv.Kind)
 			} else {
-				// blockers: leveragelp sweep liquidations burn (begin), nothing mints
+				// blockers: only the leveraged-LP sweep (begin block) may exit (burn); nothing mints
 				ok = mv.Kind == "burn" && mv.Phase == "begin"
 			}
 			if !ok {
@@ -191,7 +210,6 @@ func (m *MonC02) AfterBlock(s *Sim, eb *ExecBlock) {
 			}
 		}
 	}
-	s.Stats.Inc("checks/C02", float64(len(sn.Pools)))
 }
 
 func txHasShareOp(t *ExecTx, kind string) bool {
